@@ -413,15 +413,15 @@ PROPS["C05"] = {
         {"name": "concurrent", "pkg": "./zverif/stubs", "run": "^TestVerifC05Concurrent$", "race": True, "timeout": {"quick": 300, "thorough": 2400},
          "shards": {"quick": 1, "thorough": 4}},
     ],
-    "rule": "sequential: the C04 configurations with a result sequence of 1..8 elements (distinct, or with runs of repeated neighbouring values) on the default and on every clause (Return+AndReturn or "
-            "Returns form) and 5..60 calls selecting stubs in generated interleavings; oracle: one cursor per stub in the reference model (k-th selecting "
+    "rule": "sequential: the C04 configurations with a result sequence of 1..8 elements (distinct, or with runs of repeated neighbouring values) on the default and on every clause (Return+AndReturn, "
+            "Returns(...), or Returns(first m) continued with AndReturn) and 5..60 calls selecting stubs in generated interleavings; oracle: one cursor per stub in the reference model (k-th selecting "
             "call gets element k, later ones the last, stubs advance independently). concurrent (race build): one stub with 2..64 elements, 2..16 "
             "callers behind a spin barrier with generated yields; oracle sound for any schedule: every value is an element, positions never decrease "
             "within a caller, after a call returning the last element has completed every call started later returns the last, no race report. "
             "Non-trivial (sequential): >=2 stubs with >=2 elements and a call beyond a tail; (concurrent) every round; distinct by configuration and "
             "decision sequence / by (length, goroutines, calls, yield).",
     "assumptions": ["the concurrent half is a seeded stress search: the harness does not own the scheduler"],
-    "floors": [("sequential", "sequence/beyond-tail", 500), ("sequential", "sequence/with-repeated-neighbours", 300), ("concurrent", "rounds-running-past-the-tail", 50)],
+    "floors": [("sequential", "sequence/beyond-tail", 500), ("sequential", "sequence/with-repeated-neighbours", 300), ("sequential", "sequence/returns-then-andreturn", 300), ("concurrent", "rounds-running-past-the-tail", 50)],
 }
 
 PROPS["C09"] = {
